@@ -1407,7 +1407,7 @@ class VariationalWassersteinDistance(darsia.EMD):
                     "grid": self.grid,
                     "mass_diff": mass_diff,
                     "flux": flux,
-                    "weight": self.cell_weights,
+                    "weight": self.cell_weights.copy(),
                     "weight_inv": 1.0 / self.cell_weights,
                     "weighted_flux": weighted_flux,
                     "pressure": pressure,
